@@ -30,6 +30,7 @@ distributed flows (tag obs_nonpositive_flow, stat obs_min_flow_over_mean) and
 whether regrouping keeps the grouping-parameter order (regrouping moves
 assemblies by temperature on purpose).
 """
+import os
 import types
 import traceback
 import numpy as np
@@ -97,6 +98,8 @@ ASSUMPTIONS = ['numpy float64 arithmetic',
 TOL = 1e-9
 
 Orificing = dassh.orificing.Orificing
+VERIF_ROOT = os.path.dirname(os.path.dirname(os.path.dirname(
+    os.path.abspath(__file__)))) + os.sep
 MECH_FEWER = 'fewer_groups_than_requested'
 MECH_LAST = 'dp_limit_not_applied_to_last_group'
 MECH_REGROUP = 'regroup_identifies_groups_by_flow_rank'
@@ -474,12 +477,19 @@ def crashed(res, where, exc, cons, key):
     observation of that run and is noted, not judged here."""
     if isinstance(exc, CaseTimeout):
         raise exc
+    if not isinstance(exc, Abort):
+        # an exception coming out of the monitor's own code (a hook) is a
+        # harness error, never a finding about dassh
+        own = [fs.filename.startswith(VERIF_ROOT) for fs in
+               traceback.extract_tb(exc.__traceback__)
+               if fs.filename.startswith((VERIF_ROOT, env.SRC))]
+        if not own or own[-1]:
+            raise exc
     fr = innermost_dassh_frame(exc)
-    if isinstance(exc, Abort) or (fr is not None and
-                                  not fr[0].endswith('orificing.py')):
+    if isinstance(exc, Abort) or not fr[0].endswith('orificing.py'):
         what = str(exc)[:60] if isinstance(exc, Abort) else \
             '%s@%s:%s' % (type(exc).__name__, fr[0], fr[2])
-        res.tag('aborted_outside_orificing:' + what)
+        res.tag('aborted_outside_orificing:' + what.replace(' ', '_'))
         res.status('rejected', 'run left the orificing code: ' + what)
         return
     mech = 'crash:%s:%s' % (where, type(exc).__name__)
@@ -600,10 +610,12 @@ def call_group(res, cons, o, params, key):
     except SystemExit:
         exit_is_logged(res, '_group', key)
         res.count('group_calls_rejected')
+        res.count('X1_result_or_error_exit')
         return 'rejected'
     except Exception as e:   # noqa: the property is about result-or-error
         crashed(res, '_group', e, cons, key)
         return 'crash'
+    res.count('X1_result_or_error_exit')
     return 'ok' if cons.last_group_valid else 'invalid'
 
 
@@ -988,10 +1000,12 @@ def run_one_history(res, cons, hk_ctx, S, key):
                 m, tlim = o.distribute(data_prev, t_out)
         except SystemExit:
             exit_is_logged(res, where, key)
+            res.count('X1_result_or_error_exit')
             break
         except Exception as e:   # noqa
             crashed(res, where, e, cons, dict(key, dp=S['dp']))
             break
+        res.count('X1_result_or_error_exit')
         done += 1
         if np.min(m) <= 0.0:
             res.tag('hist:stopped_nonpositive_flow')
@@ -1166,8 +1180,10 @@ def run_e2e(case, res):
             with drive.quiet():
                 o = Orificing(inp)
                 o.optimize()
+            res.count('X1_result_or_error_exit')
         except SystemExit:
             exit_is_logged(res, 'optimize', key)
+            res.count('X1_result_or_error_exit')
             res.status('rejected', 'optimize: error exit')
         except Exception as e:   # noqa
             crashed(res, 'optimize', e, cons, key)
@@ -1199,14 +1215,14 @@ def cases(tier, seed):
                             'levels': 4, 'len': ln, 'part': pt,
                             'parts': parts, 'ncut': 3,
                             'seed': [seed, 4, ln, pt]})
-    for i in range(20 if q else 96):
+    for i in range(20 if q else 192):
         out.append({'name': 'group-%d' % i, 'kind': 'group',
                     'n': 36 if q else 60, 'nmax': 30 if q else 48,
                     'seed': [seed, 1, i]})
-    for i in range(20 if q else 96):
+    for i in range(20 if q else 192):
         out.append({'name': 'hist-%d' % i, 'kind': 'hist',
                     'n': 25 if q else 60, 'seed': [seed, 2, i]})
-    for i in range(8 if q else 48):
+    for i in range(8 if q else 72):
         out.append({'name': 'e2e-%d' % i, 'kind': 'e2e',
                     'seed': [seed, 3, i]})
     # long cases first so the pool drains evenly
